@@ -880,7 +880,11 @@ def _error_protocol(ctx):
                 ver_blocks.append((bid, 0 if (atom["op"] == "!=") == pos else 1, "major"))
             if {"_file_minor_version", "_current_minor_version"} <= names and atom["op"] in (">", "<="):
                 ver_blocks.append((bid, 0 if (atom["op"] == ">") == pos else 1, "minor"))
-    ctx.floor("R12.4", "version comparison branches", len(ver_blocks), 2)
+            # the file's identifier against the compiled-in one (a local and a member of the same name)
+            kinds = {x.get("k") for x in walk(atom) if x.get("k") in ("mem", "ref") and (x.get("n") or "").split("::")[-1] == "file_identifier"}
+            if kinds == {"mem", "ref"} and atom["op"] in ("!=", "=="):
+                ver_blocks.append((bid, 0 if (atom["op"] == "!=") == pos else 1, "identifier"))
+    ctx.floor("R12.4", "version / identifier comparison branches", len(ver_blocks), 3)
     for bid, idx, which in ver_blocks:
         # cut the OK edge: read must be unreachable
         ok_idx = 1 - idx
@@ -888,7 +892,7 @@ def _error_protocol(ctx):
         # paths that leave via the mismatch edge and do not come back through this test
         reach2 = cfg.reachable(cfg.blocks[bid].succs[idx], cut_blocks=_loop_heads(cfg)) if cfg.blocks[bid].succs[idx] is not None else set()
         ctx.ob("R12.4", "load_latest|no-read-on-%s-mismatch" % which, rb not in reach2, fl.loc(read_calls[0]),
-               "read() %s reachable from the %s-version mismatch edge within one request" % ("is" if rb in reach2 else "is not", which))
+               "read() %s reachable from the %s mismatch edge within one request" % ("is" if rb in reach2 else "is not", which))
 
     # the false result of read() sets the flag
     b = cfg.blocks[rb]
